@@ -29,7 +29,7 @@ CLAIMED = {
  'C12': dict(
    text='Universally quantified theorems for SI/EMN %Datetime (symbolic over digits, every legal truncation), Wireless-Village integers (round trip, overflow error) and date-times (all zones, exact opaque/inline form), and opaque<->base64 binary content, over models of the parser and encoder routines. Tie: TYPED correspondence against the static routines and end to end through minimal documents.',
    ref='§5 C12', technique='Lean 4 proof + correspondence (~300k lines quick)',
-   note=TB + ' Known finding: OTA ICON / DRMREL KeyValue base64 text is decoded only up to the first white-space character. Four defects fixed (see known_findings.json).'),
+   note=TB + ' Five defects fixed (see known_findings.json), among them the base64 white-space truncation in OTA ICON / DRMREL KeyValue (37684c6); nothing _partial.'),
  'C13': dict(
    text='Theorems over Model.parse: every bounds test the property names (string-table length, opaque length, table references, literal and public-id indices, inline-string terminator, mb-int length) rejects out-of-range values, the four documented tolerances are exactly those, truncation theorems (Props/C13.lean, growing; _partial where unfinished). Tie: W2X correspondence on EVERY proper prefix of valid documents and on every length/index field overwritten with exceeding values; implementation-side oracle: error status and NULL output.',
    ref='§5 C13', technique='Lean 4 proof over the parser model + exhaustive prefix / field-overwrite differential run',
